@@ -462,7 +462,11 @@ pub fn run(run: &'static Run) {
         m
     };
 
-    let seqs = if run.is_replay() { Vec::new() } else { sequences(run.pick(3, 4)) };
+    let mut seqs = if run.is_replay() { Vec::new() } else { sequences(run.pick(3, 4)) };
+    if run.quick() {
+        // quick: all sequences of <= 2 operations, and of the 3-operation ones those that end in an operation with a registry window
+        seqs.retain(|s| s.len() <= 2 || matches!(s.last(), Some(TOp::Persist(_) | TOp::Close(_) | TOp::Take(_))) && matches!(s[0], TOp::At(0)));
+    }
     let signals: Vec<i32> = if run.quick() { vec![15] } else { vec![15, 2, 3] };
     // phase 1: uninterrupted run of every sequence: its syscall points; it must leave only persisted files
     let points: Mutex<BTreeMap<u64, Vec<(String, usize)>>> = Mutex::new(BTreeMap::new());
